@@ -1628,3 +1628,45 @@ func ruleR13_7(w *World, r *Report) {
 		r.Lost("subscribeOrCreateDatatype: calls of the error handler")
 	}
 }
+
+// R03.14 a caller-supplied value is never type-asserted without the comma-ok form (F48)
+func ruleR03_14(w *World, r *Report) {
+	u := w.Client()
+	r.Rule("R03.14", "in the value-conversion code of the client a value that arrives as interface{} (a caller-supplied value, or rv.Interface() of one) is never asserted to a concrete type without the comma-ok form: the assertion panics for every other type of the same kind (map[string]string is not map[string]interface{})", 1)
+	n := 0
+	for _, fn := range u.ordaFuncs(func(p string) bool { return p == pOrda || p == pTypes }) {
+		if flattenable[fn] || !strings.HasPrefix(fn.Name(), "create") && !strings.HasPrefix(fn.Name(), "Convert") && !strings.HasPrefix(fn.Name(), "addValue") {
+			continue
+		}
+		n++
+		forEachOwnInstr(fn, func(in ssa.Instruction) {
+			ta, ok := in.(*ssa.TypeAssert)
+			if !ok || ta.CommaOk {
+				return
+			}
+			if _, isIface := ta.AssertedType.Underlying().(*types.Interface); isIface {
+				return
+			}
+			it, isI := ta.X.Type().Underlying().(*types.Interface)
+			if !isI || it.NumMethods() != 0 {
+				return
+			}
+			src := ta.X
+			fromCaller := false
+			if _, isP := src.(*ssa.Parameter); isP {
+				fromCaller = true
+			}
+			if c, isC := src.(*ssa.Call); isC && calleeName(c) == "Interface" {
+				fromCaller = true
+			}
+			if !fromCaller {
+				return
+			}
+			r.Bad(fnName(fn)+"/assertion on a caller-supplied value", u.Pos(ta.Pos()), "the value "+canonName(src)+" is asserted to "+ta.AssertedType.String()+" without the comma-ok form: any other type of that kind panics after the operation identifier was taken (F48)")
+		})
+		r.OK(fnName(fn)+"/no unchecked assertion on caller values", u.Pos(fn.Pos()), "examined")
+	}
+	if n < 3 {
+		r.Lost("value-conversion functions (create*, Convert*)")
+	}
+}
